@@ -43,6 +43,7 @@ func init() {
 			{Name: "regex", N: tierN(150000, 6000000), Run: c16Regex},
 			{Name: "dynpat", N: tierN(20000, 800000), Run: c16DynPattern},
 			{Name: "cacheseq", N: func(string) int { return 5 * 4 }, Run: c16CacheSeq},
+			{Name: "cachebig", N: tierN(24, 240), Run: c16CacheBig},
 			{Name: "cacheconc", N: tierN(2500, 150000), Run: c16CacheConc},
 			{Name: "global", N: tierN(300, 5000), Run: c16Global},
 		},
@@ -653,4 +654,102 @@ func c16DynPattern(c *Case) {
 	}
 	c.Nontrivial(d.XML())
 	c.SampleEvery(2003, func() interface{} { return map[string]interface{}{"family": "dynpat", "doc": d.XML(), "exprs": exprs} })
+}
+
+// c16CacheBig: the cache at realistic sizes - capacities 64 ... 65536 (the default), 3x as many distinct keys,
+// among them keys that differ only in case, in a trailing blank, or after a 2000-byte common prefix; sequential
+// and from 8 goroutines. After EVERY get: the value was produced by load(key) of exactly this key, entries <=
+// capacity. (A capacity check that compares with a constant, a key that is shortened or folded before the lookup,
+// an eviction that keeps a stale half - none of them shows with four keys and capacity 8.)
+var c16BigCaps = []int{64, 255, 256, 1000, 4096, 65536}
+
+func c16CacheBig(c *Case) {
+	capacity := c16BigCaps[c.Index%len(c16BigCaps)]
+	if capacity > 5000 && c.Tier != "thorough" && c.Index >= len(c16BigCaps) {
+		capacity = 1000 // the default capacity once per quick run, every time in the thorough tier
+	}
+	concurrent := (c.Index/len(c16BigCaps))%2 == 1
+	g := c.G()
+	nkeys := 3*capacity + 7
+	long := strings.Repeat("k", 2000)
+	keys := make([]string, nkeys)
+	for i := range keys {
+		switch i % 11 {
+		case 0:
+			keys[i] = fmt.Sprintf("%s%d", long, i)
+		case 1:
+			keys[i] = fmt.Sprintf("Key%d", i-1+2) // differs from the next kind only in case
+		case 2:
+			keys[i] = fmt.Sprintf("key%d", i+1)
+		case 3:
+			keys[i] = fmt.Sprintf("key%d ", i) // trailing blank
+		default:
+			keys[i] = fmt.Sprintf("key%d", i)
+		}
+	}
+	p := newProbe()
+	cache := xpath.NewLoadingCache(p.load, capacity)
+	var viol atomic.Value
+	fail := func(kind, what string, k string) {
+		show := k
+		if len(show) > 60 {
+			show = show[:20] + fmt.Sprintf("...(%d bytes)...", len(k)) + show[len(show)-12:]
+		}
+		viol.CompareAndSwap(nil, [3]string{kind, what, show})
+	}
+	gets := 6 * nkeys
+	if gets > 250000 {
+		gets = 250000
+	}
+	worker := func(wg *xgen.G, n int) {
+		hot := wg.Intn(nkeys)
+		for i := 0; i < n && viol.Load() == nil; i++ {
+			ki := wg.Intn(nkeys)
+			if wg.Chance(0.5) {
+				ki = (hot + wg.Intn(capacity/2+1)) % nkeys // a working set that fits: hits as well as misses
+			}
+			k := keys[ki]
+			v, err := xpath.VerifCacheGet(cache, k)
+			if err != nil {
+				fail("ERROR-REMEMBERED-OR-SPURIOUS", fmt.Sprint(err), k)
+				return
+			}
+			t, ok := v.(token)
+			if !ok || t.key != k || !p.wasProduced(t) {
+				fail("VALUE-NOT-PRODUCED-BY-LOAD-OF-THIS-KEY", fmt.Sprintf("got the value loaded for %.40q", fmt.Sprint(v)), k)
+				return
+			}
+			if entries, cp, _ := xpath.VerifCacheStats(cache); cp != capacity || entries > capacity {
+				fail("MORE-ENTRIES-THAN-CAPACITY", fmt.Sprintf("entries=%d capacity=%d (configured %d)", entries, cp, capacity), k)
+				return
+			}
+		}
+	}
+	if concurrent {
+		var wg sync.WaitGroup
+		for w := 0; w < 8; w++ {
+			wg.Add(1)
+			go func(w int) {
+				defer wg.Done()
+				worker(c.G(int64(w)+100), gets/8)
+			}(w)
+		}
+		wg.Wait()
+		c.Count("cachebig:concurrent")
+	} else {
+		worker(g, gets)
+		c.Count("cachebig:sequential")
+	}
+	c.Rep.Evals += int64(gets)
+	if v := viol.Load(); v != nil {
+		x := v.([3]string)
+		c.Violation(x[0], map[string]interface{}{"capacity": capacity, "distinct_keys": nkeys, "key": x[2], "observed": x[1], "concurrent": concurrent})
+		return
+	}
+	entries, _, resets := xpath.VerifCacheStats(cache)
+	if resets > 0 {
+		c.Count("cachebig:capacity-reached")
+	}
+	c.Nontrivial(fmt.Sprintf("cachebig|%d|%v|%d", capacity, concurrent, c.Index))
+	c.Sample(map[string]interface{}{"family": "cachebig", "capacity": capacity, "distinct_keys": nkeys, "gets": gets, "concurrent": concurrent, "entries_at_end": entries, "resets": resets, "loads": atomic.LoadInt64(&p.loads)})
 }
